@@ -398,15 +398,16 @@ def run_ckfile(chk, binaries, ex, scratch, ranks):
 # ----------------------------------------------------------------------------------------------------------------
 def iofile_plan(thorough):
     # (kind, MaxM, MaxN, BH, BW, palette) as in checks/C05.py
-    plan = [("dv", 3, 1, 1, 1, 1), ("dvb", 2, 1, 2, 1, 1), ("sv", 3, 1, 1, 1, 1), ("csr", 2, 2, 1, 1, 1)]
+    # palettes 3 / 5: every assignment {keep, +0, -0} to the stored entries (stored zeros stay stored), 5: symmetric CSR incl. "mtxsym"
+    plan = [("dv", 3, 1, 1, 1, 1), ("dvb", 2, 1, 2, 1, 1), ("sv", 3, 1, 1, 1, 3), ("csr", 2, 2, 1, 1, 1), ("csr", 2, 2, 1, 1, 5)]
     if thorough:
-        plan += [("csr", 2, 3, 1, 1, 2), ("dv", 4, 1, 1, 1, 2), ("sv", 4, 1, 1, 1, 2)]
+        plan += [("csr", 2, 3, 1, 1, 2), ("dv", 4, 1, 1, 1, 2), ("sv", 4, 1, 1, 1, 2), ("csr", 2, 2, 1, 1, 3), ("dv", 3, 1, 1, 1, 3), ("dvb", 1, 1, 2, 1, 3)]
     return plan
 
 
 def gen_iofile(kind, maxm, maxn, bh, bw, pal):
     name = "gen_Persist_x%s_%d_%d_%d_%d.cfg" % (kind, maxm, maxn, pal, os.getpid())
-    _cfg(name, "SPECIFICATION Spec\nCONSTANTS Kind = \"%s\" MaxM = %d MaxN = %d BH = %d BW = %d Pal = %d\nINVARIANTS RoundTrip LayoutOK Emit\nCHECK_DEADLOCK FALSE\n"
+    _cfg(name, "SPECIFICATION Spec\nCONSTANTS Kind = \"%s\" MaxM = %d MaxN = %d BH = %d BW = %d Pal = %d\nINVARIANTS RoundTrip LayoutOK StoredWritten PatternKept Emit\nCHECK_DEADLOCK FALSE\n"
          % (kind, maxm, maxn, bh, bw, pal))
     try:
         return vlib.tlc("Persist", name, timeout=1500, xmx="3g")
@@ -439,6 +440,7 @@ def run_iofile(chk, binary, ex, scratch):
     vlib.log("[c05x] iofile: %d write_out/read_from(mode, filename) behaviours replayed in %.1fs" % (len(cases), time.time() - t0))
     chk.extra["iofile_behaviours"] = len(cases)
     chk.extra["iofile_kinds_x_modes"] = sorted(set("%s/%s" % (c["kind"], c["mode"]) for c in cases))
+    chk.extra["iofile_text_behaviours_with_stored_zeros"] = sum(1 for c in cases if c["file"]["fmt"] == "text" and sum(c.get("zeros", [0, 0])) > 0)
     return len(cases)
 
 
@@ -480,7 +482,7 @@ RULE = ("spec/PersistPack.tla: every (machine type, pack type, machine type) tri
         "files of another process count, truncated, extended, with destroyed magic must be reported.  spec/PersistCkptFile.tla: checkpoints of 1..2(3) "
         "of 7 palette objects per rank (rank r holds the palette shifted by r), identifier maps, registration and restore orders of PersistCkpt.tla "
         "through save/load(filename) with 3 valid and 4 invalid file names, fresh control object, fresh process, re-save; optionally via "
-        "Global::Vector/Matrix.  spec/Persist.tla (small bounds) through write_out/read_from(mode, FILE NAME) of dv, dvb, sv, csr in every binary and text mode.  non-trivial = non-empty payload; distinct = distinct call parameters / histories")
+        "Global::Vector/Matrix.  spec/Persist.tla (small bounds) through write_out/read_from(mode, FILE NAME) of dv, dvb, sv, csr in every binary and text mode (sv and symmetric csr with every assignment {value, +0, -0} to the stored entries, csr also in the symmetric MatrixMarket variant).  non-trivial = non-empty payload; distinct = distinct call parameters / histories")
 ASSUMPTIONS = ["zlib / zfp / half / quad precision are compiled out of the baseline build: their pack types are only checked to be rejected",
                "floating point NaNs and narrowing of values that are NOT representable in the target type are not explored (the property is conditional on representability)",
                "payload bytes are generated by a fixed formula of (step, rank, position); sizes stay below 2^31 (TLC integers), so the upper 4 bytes of every u64 word are 0",
